@@ -131,6 +131,10 @@ def run_property(ctx, which, props_file):
         wrappers_job(ctx, 12000 if thorough else 2000)
     if which in ('C01', 'C04'):
         wrapper_oracle(ctx, which, 30000 if thorough else 4000)
+        from . import sim_expect
+        sim_expect.run(ctx, common.preflight(), which, 40000 if thorough else 4000)
+    if which == 'C04':
+        async_outcomes_oracle(ctx, 300 if thorough else 40)
     if which == 'C01':
         unicode_pipe_oracle(ctx, 400 if thorough else 40)
         real_transport_conservation(ctx, (0, 100, 6000, 70000) if thorough else (100, 6000), (2000, 64, 1, 100000) if thorough else (2000, 64))
@@ -440,3 +444,109 @@ while i < n:
                             % (transport, n, k, calls, maxread, len(got), j), {'transport': transport, 'n': n, 'piece': k, 'maxread': maxread, 'calls': calls, 'wait_first': wait_first})
                     return
     ctx.oracle_stats['real_transport_streams'] = tried
+
+
+def async_outcomes_oracle(ctx, n):
+    """C04 through the awaited entry point, on real pipes, sockets and ptys under a real event loop: the stream ends (or the time
+    runs out) before any pattern matches -> index of the listed marker or else that exception, before = all pending text,
+    after = the marker class"""
+    import asyncio
+    import socket
+    from pexpect import fdpexpect, socket_pexpect
+    pexpect = common.preflight()
+    rng = ctx.rng
+    tried = 0
+    for it in range(n):
+        transport = rng.choice(['pipe', 'socket', 'fdsocket', 'pty'])
+        data = bytes(rng.choice(b'abc') for _ in range(rng.randint(0, 12)))
+        ending = rng.choice(['eof', 'eof', 'timeout'])
+        listed = rng.random() < 0.5
+        marker = pexpect.EOF if ending == 'eof' else pexpect.TIMEOUT
+        pats = [b'zz'] + ([marker] if listed else [])
+        if rng.random() < 0.3:
+            pats.insert(0, pexpect.TIMEOUT if ending == 'eof' else pexpect.EOF)      # the other marker, listed first, must not be chosen
+        split = rng.randint(0, len(data))
+        closers = []
+        if transport == 'pipe':
+            r, w = os.pipe()
+            c = fdpexpect.fdspawn(r, timeout=5)
+            wr = lambda b: os.write(w, b) if b else None
+            end = lambda: os.close(w)
+            closers = [lambda: os.close(r)]
+        elif transport == 'pty':
+            # raw mode: the child copies exactly len(data) bytes and exits (stream ends), or keeps copying (stream goes silent)
+            c = pexpect.spawn('/bin/sh', ['-c', 'stty raw -echo; printf READY; exec %s' % ('head -c %d' % len(data) if ending == 'eof' else 'cat')], timeout=5, echo=False)
+            c.expect_exact(b'READY')
+            wr = lambda b: c.send(b) if b else None
+            end = lambda: None
+            closers = [lambda: c.close(force=True)]
+        else:
+            a, b = socket.socketpair()
+            c = socket_pexpect.SocketSpawn(a, timeout=5) if transport == 'socket' else fdpexpect.fdspawn(a.fileno(), timeout=5)
+            wr = lambda x: b.sendall(x) if x else None
+            end = lambda: b.close()
+            closers = [lambda: a.close()]
+        out = {}
+
+        async def go():
+            wr(data[:split])
+            if rng.random() < 0.5 and not (transport == 'pty' and ending == 'eof' and split == len(data)):
+                # a first awaited call that times out, so that the waiter exists and holds pending text (not when the pty child
+                # has all its input already: it would exit during this call)
+                try:
+                    await c.expect_exact([b'zz'], timeout=0.05, async_=True)
+                except pexpect.TIMEOUT:
+                    pass
+            wr(data[split:])
+            if ending == 'eof':
+                end()
+            try:
+                out['idx'] = await c.expect_exact(list(pats), timeout=2 if ending == 'eof' else 0.2, async_=True)
+            except pexpect.EOF:
+                out['exc'] = 'EOF'
+            except pexpect.TIMEOUT:
+                out['exc'] = 'TIMEOUT'
+        loop = asyncio.new_event_loop()
+        try:
+            asyncio.set_event_loop(loop)
+            loop.run_until_complete(go())
+            before, after = c.before, c.after
+        except Exception as e:
+            out['exc'] = repr(e)
+            before, after = c.before, c.after
+        finally:
+            try:
+                if c.async_pw_transport:
+                    c.async_pw_transport[1].close()
+            except Exception:
+                pass
+            loop.run_until_complete(asyncio.sleep(0))
+            loop.close()
+            asyncio.set_event_loop(None)
+            if ending != 'eof':
+                try:
+                    end()
+                except Exception:
+                    pass
+            for f in closers:
+                try:
+                    f()
+                except Exception:
+                    pass
+        tried += 1
+        name = marker.__name__
+        bad = None
+        if listed and out.get('idx') != pats.index(marker):
+            bad = 'expected index %d (the listed %s), got %r' % (pats.index(marker), name, out)
+        elif not listed and out.get('exc') != name:
+            bad = 'expected the %s exception, got %r' % (name, out)
+        elif after is not marker:
+            bad = 'after is %r, expected the %s class' % (after, name)
+        elif before != data:
+            bad = 'before is %r, but the pending text was %r' % (before, data)
+        if bad:
+            ctx.hit('C04/awaited', 'awaited expect_exact(%r) on a %s whose stream %s after %r (written as %r + %r): %s'
+                    % ([p if isinstance(p, bytes) else p.__name__ for p in pats], transport, 'ended' if ending == 'eof' else 'went silent', data, data[:split], data[split:], bad),
+                    {'transport': transport, 'data': list(data), 'split': split, 'ending': ending, 'listed': listed})
+            return
+    ctx.oracle_stats['awaited_outcomes'] = tried
